@@ -36,6 +36,10 @@ func createASTTypeExpr(pkg string, t types.Type, varPool *VarPool, imports map[s
 		if objPkg := typ.Obj().Pkg(); objPkg != nil && objPkg.Path() != pkg {
 			// For types from other packages, create a selector expression
 			// Format: package.TypeName
+			if !typ.Obj().Exported() {
+				return nil, fmt.Errorf("type %s is not exported by package %s and cannot be named in the generated code", name, objPkg.Path())
+			}
+
 			pkgPath := objPkg.Path()
 			pkgName := objPkg.Name()
 
@@ -81,6 +85,10 @@ func createASTTypeExpr(pkg string, t types.Type, varPool *VarPool, imports map[s
 		if objPkg := typ.Obj().Pkg(); objPkg != nil && objPkg.Path() != pkg {
 			// For types from other packages, create a selector expression
 			// Format: package.TypeName
+			if !typ.Obj().Exported() {
+				return nil, fmt.Errorf("type %s is not exported by package %s and cannot be named in the generated code", name, objPkg.Path())
+			}
+
 			pkgPath := objPkg.Path()
 			pkgName := objPkg.Name()
 
